@@ -96,6 +96,19 @@ def stems_cover(E, S):
 
 
 @spec
+def stems_inverse(E, S, GS):
+    """ghost inverse of the stems: GS[x] is the stem whose 5' strand holds the 5'->3' paired position x"""
+    return (len(GS) == len(E)
+            and forall(lambda x: implies(0 <= x and x < len(E) and qual(E[x]), 0 <= GS[x] and GS[x] < len(S) and covered(x + 1, S[GS[x]]))))
+
+
+@spec
+def covered(i, T):
+    """1-based index i lies on the 5' strand of run T"""
+    return len(T) > 0 and T[0].index_ <= i and i <= T[0].index_ + len(T) - 1
+
+
+@spec
 def stems_maximal(E, S):
     """no stem can be extended by the pair stacked directly outside or inside it"""
     return forall(lambda a: implies(0 <= a and a < len(S),
@@ -145,6 +158,35 @@ def regions_match(E, R):
     return (regions_ok(R, len(E))
             and forall(lambda a, x: implies(0 <= a and a < len(R) and lo5(R, a) <= x and x <= hi5(R, a), E[x].pair == R[a][1] - (x - lo5(R, a))))
             and forall(lambda a, b: implies(0 <= a and a < b and b < len(R), hi5(R, a) < lo5(R, b))))
+
+
+@spec
+def regions_cover(E, R, GS):
+    """every 5'->3' paired position lies on the 5' strand of the region GS names (ghost inverse map)"""
+    return (len(GS) == len(E)
+            and forall(lambda x: implies(0 <= x and x < len(E) and qual(E[x]), 0 <= GS[x] and GS[x] < len(R) and lo5(R, GS[x]) <= x and x <= hi5(R, GS[x]))))
+
+
+@spec
+def downward(E, y):
+    """the entry at 0-based position y is the 3' partner of a pair"""
+    return E[y].pair != 0 and E[y].pair - 1 < y
+
+
+@spec
+def nodown(E, lo, hi):
+    return forall(lambda y: implies(lo <= y and y < hi and 0 <= y and y < len(E), not downward(E, y)))
+
+
+@spec
+def lossless(E, P):
+    """C01, 'decodes to exactly the structure's base pairs - nothing lost, nothing invented': the decoded list P holds
+    pairs (5' position, 3' position) of E only, and - listing them by increasing 3' position - leaves out no 3' partner"""
+    return (forall(lambda q: implies(0 <= q and q < len(P), 0 <= P[q][0] and P[q][0] < P[q][1] and P[q][1] < len(E)
+                                     and E[P[q][0]].pair == P[q][1] + 1 and E[P[q][1]].pair == P[q][0] + 1))
+            and forall(lambda q: implies(0 <= q and q + 1 < len(P), P[q][1] < P[q + 1][1] and nodown(E, P[q][1] + 1, P[q + 1][1])))
+            and implies(len(P) > 0, nodown(E, 0, P[0][1]) and nodown(E, P[len(P) - 1][1] + 1, len(E)))
+            and implies(len(P) == 0, nodown(E, 0, len(E))))
 
 
 @spec
@@ -215,27 +257,6 @@ LEMMAS = {
                       "ensures": ["implies(0 <= a and a < len(R) and 0 <= b and b < len(R) and a != b, "
                                   "apart(lo5(R, a), hi5(R, a), lo5(R, b), hi5(R, b)) and apart(lo5(R, a), hi5(R, a), lo3(R, b), hi3(R, b)) "
                                   "and apart(lo3(R, a), hi3(R, a), lo3(R, b), hi3(R, b)))"]},
-    # the ghost-free reading of the decoder's postcondition follows from the one stated with the inverse strand map G
-    "on3_map": {"kind": "smt", "params": ["R", "G", "N"], "shapes": ["list[tuple[int,int,int]]", "list[int]", "int"],
-                "requires": ["regions_ok(R, N)", "region_map(G, R, N, len(R))"],
-                "ensures": ["forall(lambda y, a: implies(0 <= a and a < len(R) and on3(R, a, y), 0 <= y and y < N and G[y] == a))"]},
-    "decoded_plain": {"kind": "smt", "params": ["P", "R", "G", "N"],
-                      "shapes": ["list[tuple[int,int]]", "list[tuple[int,int,int]]", "list[int]", "int"],
-                      "requires": ["regions_ok(R, N)", "region_map(G, R, N, len(R))", "decoded_g(P, R, G, N)"],
-                      "steps": [
-                          "use on3_map(R, G, N)",
-                          # every noclose(..) fact is proved for an arbitrary position y and region a, naming G[y] first
-                          "forall y, a | assert implies(0 <= a and a < len(R) and on3(R, a, y), 0 <= y and y < N and G[y] == a) | assert implies(len(P) > 0 and 0 <= y and y < P[0][1] and 0 <= a and a < len(R), not on3(R, a, y))",
-                          "forall y, a | assert implies(0 <= a and a < len(R) and on3(R, a, y), 0 <= y and y < N and G[y] == a) | assert implies(len(P) > 0 and P[len(P) - 1][1] + 1 <= y and y < N and 0 <= a and a < len(R), not on3(R, a, y))",
-                          "forall y, a | assert implies(0 <= a and a < len(R) and on3(R, a, y), 0 <= y and y < N and G[y] == a) | assert implies(len(P) == 0 and 0 <= y and y < N and 0 <= a and a < len(R), not on3(R, a, y))",
-                          "forall q, y, a | assert implies(0 <= a and a < len(R) and on3(R, a, y), 0 <= y and y < N and G[y] == a) | assert implies(0 <= q and q + 1 < len(P) and P[q][1] + 1 <= y and y < P[q + 1][1] and 0 <= a and a < len(R), not on3(R, a, y))",
-                          "forall q | assert implies(0 <= q and q < len(P), P[q][1] < N and 0 <= G[P[q][1]] and G[P[q][1]] < len(R) and on3(R, G[P[q][1]], P[q][1]) and P[q][0] == lo5(R, G[P[q][1]]) + (hi3(R, G[P[q][1]]) - P[q][1]))",
-                      ],
-                      "ensures": ["forall(lambda q: implies(0 <= q and q < len(P), P[q][1] < N and exists(lambda a: 0 <= a and a < len(R) and on3(R, a, P[q][1]) and P[q][0] == lo5(R, a) + (hi3(R, a) - P[q][1]))))",
-                                  "forall(lambda q: implies(0 <= q and q + 1 < len(P), P[q][1] < P[q + 1][1] and noclose(R, P[q][1] + 1, P[q + 1][1])))",
-                                  "implies(len(P) > 0, noclose(R, 0, P[0][1]) and noclose(R, P[len(P) - 1][1] + 1, N))",
-                                  "implies(len(P) == 0, noclose(R, 0, N))",
-                                  "decoded(P, R, N)"]},
     "FC_definition": {"kind": "definition", "params": ["R"], "ensures": ["FC_def(R)"]},
     "levels30_definition": {"kind": "definition", "params": ["s", "R"],
                             "ensures": ["implies(levels30(s), forall(lambda a: implies(0 <= a and a < len(R), FC(a) < 30)))"]},
@@ -255,10 +276,13 @@ class stems_entries:
     params = {"self": "BpSeq"}
     requires = ["valid(self.entries)"]
     returns = "list[list[Entry]]"
+    ghost_returns = {"GS": "list[int]"}
     ensures = ["stems_ok(self.entries, result)",
                "stems_cover(self.entries, result)",
-               "stems_maximal(self.entries, result)"]
-    ensures_labels = {0: "runs-of-stacked-pairs", 1: "every-pair-in-a-stem", 2: "maximal"}
+               "stems_maximal(self.entries, result)",
+               "stems_inverse(self.entries, result, GS)"]
+    ensures_labels = {0: "runs-of-stacked-pairs", 1: "every-pair-in-a-stem", 2: "maximal", 3: "every-pair-in-the-stem-GS-names"}
+    ensures_in_variant = {3: "inverse"}  # proved by stems_entries_inverse below (same function, leaner invariants)
     raises = []
     modifies = []
     locals = {"stems": "list[list[Entry]]", "entries": "list[Entry]"}
@@ -286,6 +310,36 @@ class stems_entries:
          "do": ["assert not (entry.index_ >= 2 and self.entries[entry.index_ - 2].pair == entry.pair + 1)"]},
         {"when": "before", "at": "if entries:", "label": "open-run-maximal",
          "do": ["assert implies(len(entries) > 0, not (after(entries) < len(self.entries) and qual(self.entries[after(entries)])))"]},
+    ]
+
+
+class stems_entries_inverse:
+    """second contract on BpSeq.__stems_entries: the ghost inverse map GS (position -> index of its stem), maintained
+    along the loop, proves the existence-free form of 'every 5'->3' pair lies in a stem'"""
+    target = "BpSeq.__stems_entries"
+    params = {"self": "BpSeq"}
+    requires = ["valid(self.entries)"]
+    returns = "list[list[Entry]]"
+    ghost_returns = {"GS": "list[int]"}
+    ensures = ["stems_inverse(self.entries, result, GS)"]
+    ensures_labels = {0: "every-pair-in-the-stem-GS-names"}
+    raises = []
+    modifies = []
+    locals = {"stems": "list[list[Entry]]", "entries": "list[Entry]"}
+    ghost_entry = ["let GS = fill(len(self.entries), 0 - 1)"]
+    loops = {0: {"index": "p", "inv": [
+        "len(stems) >= 0 and len(entries) >= 0 and len(GS) == len(self.entries)",
+        "forall(lambda a: implies(0 <= a and a < len(stems), len(stems[a]) >= 1))",
+        # the open run occupies consecutive positions ending right below the last position taken
+        "forall(lambda t: implies(0 <= t and t < len(entries), entries[t].index_ == entries[0].index_ + t))",
+        "implies(len(entries) > 0, 1 <= entries[0].index_ and entries[0].index_ + len(entries) - 1 <= p)",
+        "implies(len(entries) == 0, forall(lambda x: implies(0 <= x and x < p, not qual(self.entries[x]))))",
+        # ghost inverse map: closed stems by their index, the open run by the index it will get
+        "forall(lambda x: implies(0 <= x and x < p and qual(self.entries[x]), (0 <= GS[x] and GS[x] < len(stems) and covered(x + 1, stems[GS[x]])) or (GS[x] == len(stems) and covered(x + 1, entries))))",
+    ]}}
+    ghost = [
+        {"when": "after", "at": "entries.append(entry)", "loop": 0, "label": "GS-join", "do": ["let GS = upd(GS, p, len(stems))"]},
+        {"when": "after", "at": "entries = [entry]", "loop": 0, "label": "GS-start", "do": ["let GS = upd(GS, p, len(stems))"]},
     ]
 
 
@@ -452,29 +506,43 @@ class db_from_string_painted:
 
 
 class make_dot_bracket:
-    """C01: the text written for (regions, orders) carries OPEN/CLOSE[orders[a]] on the two strands of every stem and dots
-    elsewhere, and - the levels being proper - decodes to exactly the pairs of the regions (no IndexError, nothing lost,
-    nothing invented)"""
+    """C01 for every encoder: the text written for (regions, orders) - the regions being the stems of the structure and
+    the levels proper - has the structure's length and sequence, carries OPEN/CLOSE[orders[a]] on the two strands of every
+    stem and dots elsewhere (ghost inverse strand map G), never makes the decoder pop an empty stack, and decodes to
+    exactly the structure's base pairs (lossless: nothing lost, nothing invented)"""
     target = "BpSeq.__make_dot_bracket"
     params = {"self": "BpSeq", "regions": "list[tuple[int,int,int]]", "orders": "list[int]"}
-    requires = ["valid(self.entries)", "regions_match(self.entries, regions)",
+    ghost_params = {"GS": "list[int]"}
+    requires = ["valid(self.entries)", "regions_match(self.entries, regions)", "regions_cover(self.entries, regions, GS)",
                 "len(orders) >= len(regions)", "proper(regions, orders)"]
     returns = "DotBracket"
+    ghost_returns = {"G": "list[int]"}
     ensures = ["len(result.structure) == len(self.entries)",
-               "painted(result.structure, regions, orders, len(regions))",
                "seq_of(self.entries, result.sequence)",
                "fresh(result)",
-               "decoded(result.pairs, regions, len(self.entries))"]
-    ensures_labels = {0: "length", 1: "painted", 2: "sequence", 3: "fresh", 4: "decodes-to-the-regions-pairs"}
+               "region_map(G, regions, len(self.entries), len(regions))",
+               "painted_g(result.structure, regions, orders, G)",
+               "decoded_g(result.pairs, regions, G, len(self.entries))",
+               "lossless(self.entries, result.pairs)"]
+    ensures_labels = {0: "length", 1: "sequence", 2: "fresh", 3: "G-is-the-inverse-strand-map", 4: "painted",
+                      5: "decodes-to-the-regions-pairs", 6: "lossless"}
     raises = []
     modifies = []
     locals = {"structure": "cstr"}
     callee_variants = {"DotBracket.from_string": "painted"}
-    ghost_exit = ["use decoded_plain(result.pairs, regions, G, len(self.entries))"]
     ghost_entry = ["forall a, b | use strands_apart(self.entries, regions, a, b) | assert implies(0 <= a and a < len(regions) and 0 <= b and b < len(regions) and a != b, "
                    "apart(lo5(regions, a), hi5(regions, a), lo5(regions, b), hi5(regions, b)) and "
                    "apart(lo5(regions, a), hi5(regions, a), lo3(regions, b), hi3(regions, b)) and "
                    "apart(lo3(regions, a), hi3(regions, a), lo3(regions, b), hi3(regions, b)))"]
+    ghost_exit = [
+        # nothing invented: a decoded pair (x, y) is a pair of E
+        "forall q | assert implies(0 <= q and q < len(result.pairs), 0 <= result.pairs[q][0] and result.pairs[q][0] < result.pairs[q][1] and on5(regions, G[result.pairs[q][1]], result.pairs[q][0]))"
+        " | assert implies(0 <= q and q < len(result.pairs), self.entries[result.pairs[q][0]].pair == result.pairs[q][1] + 1 and self.entries[result.pairs[q][1]].pair == result.pairs[q][0] + 1)",
+        # nothing lost: a 3' partner lies on the 3' strand of the region that holds its 5' partner
+        "forall y | assert implies(0 <= y and y < len(self.entries) and downward(self.entries, y), qual(self.entries[self.entries[y].pair - 1]) and self.entries[self.entries[y].pair - 1].pair == y + 1)"
+        " | assert implies(0 <= y and y < len(self.entries) and downward(self.entries, y), on3(regions, GS[self.entries[y].pair - 1], y))"
+        " | assert implies(0 <= y and y < len(self.entries) and downward(self.entries, y), G[y] >= 0 and on3(regions, G[y], y))",
+    ]
     ghost = [
         {"when": "after", "at": "structure = [", "label": "G0", "do": ["let G = fill(len(sequence), 0 - 1)"]},
         {"when": "after", "at": "structure[j - 1] = bracket[0]", "label": "G5", "do": ["let G = upd(G, j - 1, i)"]},
@@ -501,7 +569,9 @@ class fcfs:
     params = {"self": "BpSeq"}
     requires = ["valid(self.entries)", "levels30(self)"]
     returns = "DotBracket"
-    ensures = ["len(result.structure) == len(self.entries)"]
+    ensures = ["len(result.structure) == len(self.entries)", "seq_of(self.entries, result.sequence)",
+               "lossless(self.entries, result.pairs)", "fresh(result)"]
+    ensures_labels = {0: "length", 1: "sequence", 2: "lossless", 3: "fresh"}
     raises = []
     modifies = []
     locals = {}
@@ -515,7 +585,7 @@ class fcfs:
             ],
     }
     ghost = [
-        {"when": "after", "at": "regions =", "do": ["let R = regions", "use FC_definition(R)", "use levels30_definition(self, R)"]},
+        {"when": "after", "at": "regions =", "do": ["let R = regions", "let GS = __stems_entries_GS", "use FC_definition(R)", "use levels30_definition(self, R)"]},
         {"when": "before", "at": "order = next(", "label": "level-free", "do": ["assert 0 <= FC(i) and FC(i) < 30 and available[FC(i)]",
                 "forall lv | assert implies(0 <= lv and lv < FC(i), taken(i, lv) and not available[lv])"]},
         {"when": "after", "at": "order = next(", "label": "next-is-FC", "do": ["assert order == FC(i)"]},
@@ -529,6 +599,7 @@ CONTRACTS = {
     "DotBracket.__post_init__@painted": db_post_init_painted,
     "DotBracket.from_string@painted": db_from_string_painted,
     "BpSeq.__stems_entries": stems_entries,
+    "BpSeq.__stems_entries@inverse": stems_entries_inverse,
     "BpSeq.__make_dot_bracket": make_dot_bracket,
     "BpSeq.fcfs": fcfs,
 }
